@@ -60,6 +60,12 @@ def c09(tier, seed):
     for api in range(3):
         jobs.append(J(SW, "VerifK09aLifeCycle", n=2 if q else 3, api=api, **big))
         jobs.append(J(SW, "VerifK09aLifeCycleV2", n=2 if q else 3, api=api, **big))
+    # the request is cancelled INSIDE a datastore read (the row is already consumed from the datastore iterator)
+    jobs.append(J(SW, "VerifK09aLifeCycle", n=2, api=0, inside=1, **big))
+    jobs.append(J(SW, "VerifK09aLifeCycleV2", n=2, api=0, inside=1, **big))
+    if not q:
+        for api in (1, 2):
+            jobs.append(J(SW, "VerifK09aLifeCycle", n=2, api=api, inside=1, **big))
     for n in range(3 if q else 4):
         jobs.append(J(SHARED, "VerifK09dSharedClones", n=n, ops=4 if q else 5, **big))
     jobs += shared_cancel(tier)
